@@ -127,8 +127,9 @@ def run(ctx):
                     docs.append(G.spell(ov[0], ctx.rng, level=ctx.rng.choice([0, 0.5])))
                     meta.append(("overlap:" + ("overlapping" if ov[1] else "disjoint"), base))
         reps = model_resolve(ctx, docs)
+        acc = ctx.driver.batch([{"op": "accepts", "doc": enc(d)} for d in docs])
         graphs, gdocs = [], []
-        for d, (t, base), rep in zip(docs, meta, reps):
+        for (d, (t, base), rep), a in zip(zip(docs, meta, reps), acc):
             routes = ["dict", "builder_fromdict"]
             if ctx.rng.random() < 0.35:
                 routes.append("yaml")
@@ -141,6 +142,15 @@ def run(ctx):
             code = res["dict"]
             ctx.count(show(canon_doc(d)), t != "parent", tags=[("op:" + t.split("+")[0].split(":")[0]), "accepted" if code[0] == "ok" else "rejected:" + code[1]])
             compare_with_model(ctx, d, code, rep)
+            # the independent validator written from the specification (Spec.accepts = schemaOK, fill, validGraph;
+            # theorem resolve_ok_iff ties it to the Model) against the REAL code, both directions
+            if a.get("wf") and "ok" in a and a["ok"] != (code[0] == "ok"):
+                ctx.violation(("a document the specification rejects is resolved" if code[0] == "ok" else
+                               "a document the specification accepts is rejected") + f" (mutation {t.split('+')[0].split(':')[0]})",
+                              {"document": show(canon_doc(d))}, detail={"spec": {k: a.get(k) for k in ("schema", "ok")},
+                              "failing_clauses": (a.get("fill") or {}).get("failing")}, python=py_repro(d, "g"))
+            if a.get("ok") and code[0] == "ok" and not canon_eq(code[1], dec(a["fill"]["asdict"])):
+                ctx.violation("the resolved dictionary differs from the specification's fill-in", {"document": show(canon_doc(d))})
             if t == "overlap:overlapping" and code[0] == "ok":
                 ctx.violation("a document with two migrations for one ordered pair overlapping in time is resolved", {"document": show(canon_doc(d))}, python=py_repro(d, "g.migrations"))
             if t == "parent" and code[0] != "ok":
